@@ -29,10 +29,8 @@ impl DalekPublicKey {
     #[verifier::external_body]
     pub fn to_bytes(&self) -> (r: [u8; 32]) ensures r@ == spec_dalek_bytes(*self) { unimplemented!() }
 }
-pub struct Ed25519Error { pub c: u8 }
 pub uninterp spec fn spec_dalek_bytes(pk: DalekPublicKey) -> Seq<u8>;
 // payment proof message: amount (8 bytes BE) ++ kernel excess (33) ++ sender address (32)
-pub uninterp spec fn spec_be64(v: u64) -> Seq<u8>;
 pub open spec fn spec_proof_msg(amount: u64, excess: Commitment, sender: DalekPublicKey) -> Seq<u8> {
     spec_be64(amount) + excess.0@ + spec_dalek_bytes(sender)
 }
